@@ -4,6 +4,7 @@ import (
 	"flag"
 	"fmt"
 	"go/ast"
+	"go/types"
 	"os"
 	"runtime/debug"
 	"sort"
@@ -47,6 +48,14 @@ func main() {
 			os.Exit(2)
 		}
 		c.Tier = *tier
+		if strings.HasPrefix(*dump, "writes:") {
+			dumpWrites(c, strings.TrimPrefix(*dump, "writes:"))
+			return
+		}
+		if strings.HasPrefix(*dump, "guards:") {
+			dumpGuards(c, strings.TrimPrefix(*dump, "guards:"))
+			return
+		}
 		if strings.HasPrefix(*dump, "loops:") {
 			dumpLoops(c, strings.TrimPrefix(*dump, "loops:"))
 			return
@@ -193,6 +202,60 @@ func dumpLoops(c *Ctx, name string) {
 			return true
 		})
 	}
+}
+
+// dumpWrites prints every write to every field of the struct types whose name contains the argument
+// ("Parser.Idendity"): a debugging aid for who-writes / must-write tables.
+func dumpWrites(c *Ctx, name string) {
+	for _, p := range c.All {
+		sc := p.Types.Scope()
+		for _, n := range sc.Names() {
+			tn, ok := sc.Lookup(n).(*types.TypeName)
+			if !ok {
+				continue
+			}
+			full := p.Types.Name() + "." + n
+			if !strings.Contains(full, name) {
+				continue
+			}
+			st, ok := tn.Type().Underlying().(*types.Struct)
+			if !ok {
+				continue
+			}
+			for i := 0; i < st.NumFields(); i++ {
+				fv := st.Field(i)
+				fmt.Println("==", full+"."+fv.Name())
+				for _, w := range fieldWrites(c, fv) {
+					fmt.Printf("   %-45s %-3s %s   @%s\n", w.fn, w.op, w.path, c.pos(w.pos))
+				}
+			}
+		}
+	}
+}
+
+// dumpGuards prints, for every assignment and call statement of the matching functions, the guard atoms.
+func dumpGuards(c *Ctx, name string) {
+	for _, f := range c.AllFuncs() {
+		if !strings.Contains(f.Name, name) {
+			continue
+		}
+		fmt.Println("==", f.Name)
+		ast.Inspect(f.Decl.Body, func(n ast.Node) bool {
+			switch x := n.(type) {
+			case *ast.AssignStmt, *ast.ExprStmt:
+				fmt.Printf("  %s: %s\n      %v\n", c.pos(x.Pos()), oneLine(exprStringNode(c, x)), guardAtoms(c, f, x))
+			}
+			return true
+		})
+	}
+}
+
+func exprStringNode(c *Ctx, n ast.Node) string {
+	s := printNode(c.Fset, n)
+	if len(s) > 90 {
+		s = s[:90] + "…"
+	}
+	return s
 }
 
 func dumpStaged(c *Ctx, what string) {
